@@ -14,6 +14,7 @@ Two execution modes share all primitives (see DESIGN.md section 2.1):
 """
 import hashlib
 import heapq
+import os
 import random
 import threading
 
@@ -450,6 +451,12 @@ class Ctx:
             else:
                 idle += 2.0
                 if idle >= PARK_LIMIT_S:
+                    if os.environ.get("VERIF_DEBUG_PARK"):
+                        import faulthandler
+                        import sys
+                        sys.stderr.write("ALL PARKED: current=%r tasks=%r\n" % (
+                            self.current and self.current.name, [(t.name, t.state, t.what, t.sem.locked()) for t in self.tasks]))
+                        faulthandler.dump_traceback(all_threads=True)
                     if self._end_reason is None:
                         self._end_reason = AllParked()
                     break
